@@ -153,6 +153,10 @@ fn decide(case: &Case, info: &mut CaseInfo) -> Verdict {
                     match c.recv(T) {
                         Ok(Pkt::CfgStoreCookie { key, payload }) if key == cookie::AUTH_KEY => stored = Some(payload),
                         Ok(Pkt::CfgStoreCookie { .. }) => {}
+                        // the first (immediate) keep-alive tick may surface at the start of the configuration phase
+                        Ok(Pkt::CfgKeepAliveCb { id }) => {
+                            let _ = c.send(&Pkt::CfgKeepAliveSb { id });
+                        }
                         Ok(Pkt::CfgTransfer { .. }) => return stored.ok_or_else(|| "no authentication cookie before the Transfer".to_string()),
                         other => return Err(format!("routing: {other:?}")),
                     }
